@@ -49,6 +49,7 @@ type Op struct {
 	Ls  []int  `json:"ls,omitempty"`  // SP, R, F: topics the NEW instance subscribes to in OnLaunch
 	Fk  string `json:"fk,omitempty"`  // F: "empty" = Subscribe(""), "nil" = UnSubscribe(nil)
 	Via int    `json:"via,omitempty"` // ST: topic of the publication during whose fan-out the subscription actor is stalled
+	Loc bool   `json:"loc,omitempty"` // P (two-node family only): the payload is NOT a network message (a plain Go value the codec cannot encode)
 }
 
 type Msg struct {
